@@ -20,6 +20,7 @@ type Unit struct {
 	Spec       *spec.FuncSpec
 	entry      *State
 	entryNames map[string]Value
+	excl       []frameExcl
 }
 
 // UnitResult is the outcome of VC generation for one unit.
@@ -376,30 +377,27 @@ func (x *exec) atReturn(st *State, u *Unit, rets []Value, captured []captVar, nr
 		g := x.guardedGoal(env, cl.Expr)
 		e.obligation(st, "post", clauseName(cl, i), cl.Tag, cl.Text, cl.Pos.String(), g)
 	}
-	x.frameCheck(st, u, env)
+	x.frameCheck(st, u, "")
 }
 
-// frameCheck proves that nothing outside the modifies clause changed (for objects that existed at entry).
-func (x *exec) frameCheck(st *State, u *Unit, env *Env) {
+// frameExcl is one location of the modifies clause, evaluated in the entry state.
+type frameExcl struct {
+	prefix string
+	ref    smt.Term
+	lo, hi *smt.Term // Mem ranges (absolute indices)
+	whole  bool
+}
+
+// frameExclusions evaluates the unit's modifies clause in the entry state.
+func (x *exec) frameExclusions(u *Unit) []frameExcl {
+	if u.excl != nil {
+		return u.excl
+	}
 	e := x.e
 	fs := u.Spec
-	if fs.ModAll || fs.Opts["noframe"] != "" {
-		return
-	}
-	if st.gen != 0 {
-		e.obligation(st, "frame", "havoc", "", "function calls code that may modify anything; its modifies clause is not '*'", fs.Pos.String(), smt.False)
-		return
-	}
-	// entry environment for evaluating the modifies expressions
 	pre := x.newEnv(u.entry, fs)
 	pre.names = u.entryNames
-	type excl struct {
-		prefix string
-		ref    smt.Term
-		lo, hi *smt.Term // Mem ranges (absolute indices)
-		whole  bool
-	}
-	var ex []excl
+	ex := []frameExcl{}
 	var add func(m spec.Expr)
 	add = func(m spec.Expr) {
 		switch m := m.(type) {
@@ -407,7 +405,7 @@ func (x *exec) frameCheck(st *State, u *Unit, env *Env) {
 			base := pre.eval(m.X)
 			if strings.HasPrefix(m.Name, "$") {
 				key, idx, _, _ := pre.ghostLoc(base, m.Name)
-				ex = append(ex, excl{prefix: key, ref: idx, whole: true})
+				ex = append(ex, frameExcl{prefix: key, ref: idx, whole: true})
 				return
 			}
 			p := x.ptrOf(base)
@@ -415,13 +413,13 @@ func (x *exec) frameCheck(st *State, u *Unit, env *Env) {
 				return
 			}
 			pre2, _ := e.followPath(p.Root, p.Path)
-			ex = append(ex, excl{prefix: objKeyPrefix(p.Root) + pre2 + "." + m.Name, ref: p.Base, whole: true})
+			ex = append(ex, frameExcl{prefix: objKeyPrefix(p.Root) + pre2 + "." + m.Name, ref: p.Base, whole: true})
 		case *spec.Call:
 			id, _ := m.Fun.(*spec.Ident)
 			if id != nil && id.Name == "Mem" {
 				v := pre.eval(m.Args[0])
 				sl := types.Unalias(v.T).Underlying().(*types.Slice)
-				ex = append(ex, excl{prefix: memKeyPrefix(sl.Elem()), ref: v.L[slArr], whole: true})
+				ex = append(ex, frameExcl{prefix: memKeyPrefix(sl.Elem()), ref: v.L[slArr], whole: true})
 				return
 			}
 			if id != nil && id.Name == "deref" {
@@ -429,7 +427,7 @@ func (x *exec) frameCheck(st *State, u *Unit, env *Env) {
 				p := x.ptrOf(v)
 				if p.Kind == PtrHeap {
 					pre2, _ := e.followPath(p.Root, p.Path)
-					ex = append(ex, excl{prefix: objKeyPrefix(p.Root) + pre2, ref: p.Base, whole: true})
+					ex = append(ex, frameExcl{prefix: objKeyPrefix(p.Root) + pre2, ref: p.Base, whole: true})
 				}
 				return
 			}
@@ -445,9 +443,9 @@ func (x *exec) frameCheck(st *State, u *Unit, env *Env) {
 			if m.Hi != nil {
 				hi = pre.evalInt64(m.Hi)
 			}
-			alo := smt.BVBin("bvadd", v.L[slOff], lo)
-			ahi := smt.BVBin("bvadd", v.L[slOff], hi)
-			ex = append(ex, excl{prefix: memKeyPrefix(sl.Elem()), ref: v.L[slArr], lo: &alo, hi: &ahi})
+			alo := e.ctx.Name("flo", smt.BVBin("bvadd", v.L[slOff], lo))
+			ahi := e.ctx.Name("fhi", smt.BVBin("bvadd", v.L[slOff], hi))
+			ex = append(ex, frameExcl{prefix: memKeyPrefix(sl.Elem()), ref: v.L[slArr], lo: &alo, hi: &ahi})
 		case *spec.Ident:
 			if mm, ok := pre.macros[m.Name]; ok {
 				add(mm)
@@ -459,8 +457,45 @@ func (x *exec) frameCheck(st *State, u *Unit, env *Env) {
 	for _, m := range fs.Modifies {
 		add(m)
 	}
-	matches := func(key, prefix string) bool {
-		return key == prefix || strings.HasPrefix(key, prefix) && (key[len(prefix)] == '.' || key[len(prefix)] == '>')
+	u.excl = ex
+	return ex
+}
+
+func keyMatches(key, prefix string) bool {
+	return key == prefix || strings.HasPrefix(key, prefix) && (key[len(prefix)] == '.' || key[len(prefix)] == '>')
+}
+
+// outsideFrame is the condition under which cell (r[,k]) of heap array key must keep its entry value.
+func (x *exec) outsideFrame(u *Unit, key string, hk heapKey, r, k smt.Term) smt.Term {
+	e := x.e
+	conds := []smt.Term{}
+	if hk.Idx == smt.Ref {
+		conds = append(conds, smt.IntBin("<=", e.stamp(r), u.entry.clock))
+	}
+	isMem := strings.HasPrefix(key, "mem<")
+	for _, ex := range x.frameExclusions(u) {
+		if !keyMatches(key, ex.prefix) || ex.ref.Sort != hk.Idx {
+			continue
+		}
+		if ex.whole || !isMem {
+			conds = append(conds, smt.Not(smt.Eq(r, ex.ref)))
+		} else {
+			conds = append(conds, smt.Not(smt.And(smt.Eq(r, ex.ref), inRange(*ex.lo, k, *ex.hi))))
+		}
+	}
+	return smt.And(conds...)
+}
+
+// frameCheck proves that nothing outside the modifies clause changed (for objects that existed at entry).
+func (x *exec) frameCheck(st *State, u *Unit, where string) {
+	e := x.e
+	fs := u.Spec
+	if fs == nil || fs.ModAll || fs.Opts["noframe"] != "" {
+		return
+	}
+	if st.gen != 0 {
+		e.obligation(st, "frame", "havoc", "", "function calls code that may modify anything; its modifies clause is not '*'", fs.Pos.String(), smt.False)
+		return
 	}
 	for _, key := range sortedKeys(st.heap) {
 		cur := st.heap[key]
@@ -473,35 +508,37 @@ func (x *exec) frameCheck(st *State, u *Unit, env *Env) {
 			continue
 		}
 		r := e.ctx.Fresh("fr_obj", hk.Idx)
-		conds := []smt.Term{}
-		if hk.Idx == smt.Ref {
-			conds = append(conds, smt.IntBin("<=", e.stamp(r), u.entry.clock))
-		}
 		var goal smt.Term
-		if _, inner, isMem := smt.ArrayParts(hk.Elem); isMem && strings.HasPrefix(key, "mem<") {
-			_ = inner
+		if strings.HasPrefix(key, "mem<") {
 			k := e.ctx.Fresh("fr_idx", bv64)
-			for _, x := range ex {
-				if !matches(key, x.prefix) {
-					continue
-				}
-				if x.whole {
-					conds = append(conds, smt.Not(smt.Eq(r, x.ref)))
-				} else {
-					conds = append(conds, smt.Not(smt.And(smt.Eq(r, x.ref), inRange(*x.lo, k, *x.hi))))
-				}
-			}
-			goal = smt.Implies(smt.And(conds...), smt.Eq(smt.Select(smt.Select(cur, r), k), smt.Select(smt.Select(entryArr, r), k)))
+			goal = smt.Implies(x.outsideFrame(u, key, hk, r, k), smt.Eq(smt.Select(smt.Select(cur, r), k), smt.Select(smt.Select(entryArr, r), k)))
 		} else {
-			for _, x := range ex {
-				if matches(key, x.prefix) && x.ref.Sort == hk.Idx {
-					conds = append(conds, smt.Not(smt.Eq(r, x.ref)))
-				}
-			}
-			goal = smt.Implies(smt.And(conds...), smt.Eq(smt.Select(cur, r), smt.Select(entryArr, r)))
+			goal = smt.Implies(x.outsideFrame(u, key, hk, r, smt.Term{}), smt.Eq(smt.Select(cur, r), smt.Select(entryArr, r)))
 		}
-		e.obligation(st, "frame", key, "", "only the locations named in modifies change: "+key, fs.Pos.String(), goal)
+		e.obligation(st, "frame", key, "", "only the locations named in modifies change: "+key+where, fs.Pos.String(), goal)
 	}
+}
+
+// framedHavoc replaces heap array key by a fresh one that agrees with the entry state outside the unit's modifies clause.
+func (x *exec) framedHavoc(st *State, u *Unit, key string) {
+	e := x.e
+	hk := e.heapKeys[key]
+	entryArr := e.heapArr(u.entry, key, hk.Idx, hk.Elem)
+	fresh := e.ctx.Fresh("Hl<"+key+">", smt.ArrayOf(hk.Idx, hk.Elem))
+	st.heap[key] = fresh
+	rv := smt.Sym("r!fh", hk.Idx)
+	if strings.HasPrefix(key, "mem<") {
+		kv := smt.Sym("k!fh", bv64)
+		c := x.outsideFrame(u, key, hk, rv, kv)
+		sel := fmt.Sprintf("(select (select %s r!fh) k!fh)", fresh.S)
+		q := fmt.Sprintf("(forall ((r!fh %s) (k!fh (_ BitVec 64))) (! (=> %s (= %s (select (select %s r!fh) k!fh))) :pattern (%s)))", hk.Idx, c.S, sel, entryArr.S, sel)
+		st.assume(smt.Term{S: q, Sort: smt.Bool})
+		return
+	}
+	c := x.outsideFrame(u, key, hk, rv, smt.Term{})
+	sel := fmt.Sprintf("(select %s r!fh)", fresh.S)
+	q := fmt.Sprintf("(forall ((r!fh %s)) (! (=> %s (= %s (select %s r!fh))) :pattern (%s)))", hk.Idx, c.S, sel, entryArr.S, sel)
+	st.assume(smt.Term{S: q, Sort: smt.Bool})
 }
 
 // finish renders the SMT header, adding the axioms that depend on what was used.
